@@ -454,9 +454,9 @@ func (h *PollHandler) Connect(conn *connection) bool {
 }
 
 func (h *PollHandler) Disconnect(conn *connection) {
-	select {
-	case h.disconnect <- conn:
-	default:
-		panic("disconnect buffered channel must never be full")
-	}
+	// There can be more handlers than registered connections (handlers of
+	// connections that were refused or replaced also end up here when their
+	// client goes away), so the channel may be full for a moment: wait for the
+	// worker instead of giving up, otherwise the connection stays registered.
+	h.disconnect <- conn
 }
